@@ -250,7 +250,7 @@ def lexString : List Char → Res (List Char × List Char)
 
 /-! ## Numbers (`tokens.rs::numeric_literal`) -/
 
-def isDigit (c : Char) : Bool := '0' ≤ c && c ≤ '9'
+def isDigit (c : Char) : Bool := c.isDigit
 def isBinDigit (c : Char) : Bool := c = '0' || c = '1'
 def isHexDigit (c : Char) : Bool := (hexVal? c).isSome
 
@@ -266,16 +266,21 @@ def stripSign (inp : List Char) : Bool × List Char :=
   | '-' :: r => (true, r)
   | _ => (false, inp)
 
-/-- `natural(tag, digits)` after an optional `-`: `0b`/`0x` (any case) and at least one digit. -/
-def lexRadix (tagc : Char) (tagC : Char) (isD : Char → Bool) (radix : Nat) (inp : List Char) : Option (Value × List Char) :=
-  match stripSign inp with
-  | (neg, '0' :: t :: r) =>
+/-- `natural(tag, digits)` (after the optional `-` has been stripped): `0b`/`0x` (any case) and at least one digit. -/
+def lexRadixBody (tagc : Char) (tagC : Char) (isD : Char → Bool) (radix : Nat) (neg : Bool) (inp : List Char) :
+    Option (Value × List Char) :=
+  match inp with
+  | '0' :: t :: r =>
     if t = tagc ∨ t = tagC then
       match r.takeWhile isD with
       | [] => none
       | ds => some (intValue neg (readRadix radix ds), r.dropWhile isD)
     else none
   | _ => none
+
+/-- `signed(natural(tag, digits))`. -/
+def lexRadix (tagc : Char) (tagC : Char) (isD : Char → Bool) (radix : Nat) (inp : List Char) : Option (Value × List Char) :=
+  lexRadixBody tagc tagC isD radix (stripSign inp).1 (stripSign inp).2
 
 /-- Canonical decimal: no trailing zeros in the significand. Fuel = number of digits. -/
 def stripZeros : Nat → Nat → Int → Nat × Int
@@ -330,17 +335,19 @@ def lexFloat (inp : List Char) : Option (Value × List Char) :=
     | some (en, eds, rest) => some (mkFloat neg intDs [] en eds, rest)
     | none => none
 
+/-- `decimal_or_float` after the optional `-` has been stripped (`inp` = the whole input, for the float branch). -/
+def lexDecimalBody (neg : Bool) (r inp : List Char) : Option (Value × List Char) :=
+  match r.takeWhile isDigit with
+  | [] => lexFloat inp
+  | ds =>
+    match r.dropWhile isDigit with
+    | c :: rest => if c = '.' ∨ c = 'e' ∨ c = 'E' then lexFloat inp
+                   else some (intValue neg (Nat.ofDigitChars 10 ds 0), c :: rest)
+    | [] => some (intValue neg (Nat.ofDigitChars 10 ds 0), [])
+
 /-- `decimal_or_float`. -/
 def lexDecimal (inp : List Char) : Option (Value × List Char) :=
-  match stripSign inp with
-  | (neg, r) =>
-    match r.takeWhile isDigit with
-    | [] => lexFloat inp
-    | ds =>
-      match r.dropWhile isDigit with
-      | c :: rest => if c = '.' ∨ c = 'e' ∨ c = 'E' then lexFloat inp
-                     else some (intValue neg (Nat.ofDigitChars 10 ds 0), c :: rest)
-      | [] => some (intValue neg (Nat.ofDigitChars 10 ds 0), [])
+  lexDecimalBody (stripSign inp).1 (stripSign inp).2 inp
 
 /-- `numeric_literal = alt(binary, hexadecimal, decimal_or_float)`. -/
 def lexNumber (inp : List Char) : Option (Value × List Char) :=
